@@ -3,7 +3,7 @@ From Molt Require Import Model.Base Model.ListSyn Model.Float Model.Value Model.
   Model.Parser Model.Eval Model.Expr Model.Commands Model.Unicode Model.Interp Check.ScriptObs.
 Local Open Scope N_scope.
 
-(* case: the script text.  obs: (complete_host complete_info side_effect_free outcome trace) *)
+(* case: the script text.  obs: (complete_host complete_info side_effect_free outcome trace same_after_views) *)
 Definition c17_model_obs (c : term) : term :=
   let s := term_str c in
   let '(st0, _) := eval std_uni model_fuel (harness_interp 0) (lit "set a 0; set k(1) v") in
@@ -13,15 +13,19 @@ Definition c17_model_obs (c : term) : term :=
   let c2 := match r2 with Ok v => TStr (as_str v) | Err e => TTag "Err" [TStr (as_str (x_value e))] | _ => TTag "?" [] end in
   let pure := match i_trace st1 with [] => true | _ => false end in
   let '(st2, r) := eval std_uni model_fuel st1 s in
-  TList [TBool c1; c2; TBool pure; obs_res r; TList (map TStrs (rev (i_trace st2)))].
+  (* last component: evaluating the same text from a value that was first read as a list, a
+     dictionary and an integer gives the same outcome and calls (the model has no caches, so this
+     is [true] by construction; the implementation's answer is what is being tested) *)
+  TList [TBool c1; c2; TBool pure; obs_res r; TList (map TStrs (rev (i_trace st2))); TBool true].
 
 (* the property, against the reference reader [parse] *)
 Definition c17_spec_ok (c obs : term) : bool :=
   let s := term_str c in
   let valid := match parse is_alphanumeric s with POk _ _ => true | _ => false end in
   match term_list obs with
-  | [TInt c1; c2; TInt pure; TList (TStr t :: _); TList calls] =>
-      Z.eqb c1 (if valid then 1 else 0)
+  | [TInt c1; c2; TInt pure; TList (TStr t :: _); TList calls; TInt same] =>
+      Z.eqb same 1
+      && Z.eqb c1 (if valid then 1 else 0)
       && term_eqb c2 (TStr (if valid then [49] else [48]))
       && Z.eqb pure 1
       && (valid || (str_eqb t (lit "Err") && match calls with [] => true | _ => false end))
